@@ -21,8 +21,8 @@ from harness.core import Evidence, Failure
 from harness.mesondrv import REPO, run_sub
 
 SHIM_DIR = os.path.join(os.path.dirname(os.path.abspath(__file__)), 'shim_c06')
-BUILD_DEF_NAMES = ('meson.build', 'meson.options', 'meson_options.txt')
-CORPUS_DIRS = ('common', 'unit', 'native', 'linuxlike')
+BUILD_DEF_NAMES = ('meson.build', 'meson.options', 'meson_options.txt', 'Cargo.toml', 'Cargo.lock')
+CORPUS_DIRS = ('common', 'unit', 'native', 'linuxlike', 'rust')
 
 RECORDER = r'''#!/usr/bin/env python3
 # stand-in for a built program: records how it was started (C15 corpus check)
